@@ -127,7 +127,11 @@ def runDict (c : Case) (m : DictModel) (emit : Nat → String → IO Unit) : IO 
         | none => emit k "T ?"
     | ["tabs"] => emit k s!"T {if m.hasTable then joinStrs (sortStrs S) else "-"}"
     | ["tabx"] => emit k (if m.hasTable then s!"TX {m.numElements} bad=0" else "TX 0 bad=0")
-    | ["meta"] => emit k s!"M {m.numElements} {m.maxLength}"
+    | ["meta"] =>
+      -- the model's own value must satisfy the same bound the harness checks on the real object
+      let longest := Spec.maxLen S
+      emit k (if longest ≤ m.maxLength && m.maxLength ≤ longest + 1 then s!"M {m.numElements} ok"
+              else s!"M {m.numElements} MODEL-BAD")
     | ["save"] =>
       match m.image with
       | some img => emit k s!"S {img.length} {hex16 (fnvBytes fnvInit img)}"
@@ -140,7 +144,7 @@ def runDict (c : Case) (m : DictModel) (emit : Nat → String → IO Unit) : IO 
     | "blocksdet" :: _ => emit k "BD same"
     | "reload" :: _ => emit k "R ok consumed=all"
     | "resave" :: _ => emit k "RS same"
-    | ["foreign", _] => emit k "F NULL"
+    | "foreign" :: _ => emit k "F NULL"
     | "iopen" :: name :: what :: rest =>
       let p := unhex (rest.headD "-")
       let st : IterState :=
